@@ -27,6 +27,8 @@ type c17Case struct {
 	Proto     string
 	Codec     string // json | pb
 	Kind      string // call | push
+	Unknown   bool   // the request is served by the peer's unknown-call / unknown-push handler (it binds the raw body itself)
+	RawResult bool   // the caller receives the reply body as raw bytes (*[]byte result)
 	Secure    bool   // WithSecureMeta on the request
 	Accept    string // "" | "true" | "false"  (WithAcceptSecureMeta)
 	KeyLen    int
@@ -56,6 +58,8 @@ func genC17(t *rapid.T, protos []vt.NamedProto) c17Case {
 		ReqMarker: mk("reqmarker"),
 		ResMarker: mk("resmarker"),
 		HandlerOK: rapid.IntRange(0, 4).Draw(t, "handlerok") != 0,
+		Unknown:   rapid.IntRange(0, 3).Draw(t, "unknown") == 0,
+		RawResult: rapid.IntRange(0, 3).Draw(t, "rawresult") == 0,
 	}
 }
 
@@ -142,6 +146,48 @@ func runC17(c c17Case, protos []vt.NamedProto) []string {
 		"call-json": srv.RouteCallFunc(C17Json), "call-pb": srv.RouteCallFunc(C17Pb),
 		"push-json": srv.RoutePushFunc(C17PushJson), "push-pb": srv.RoutePushFunc(C17PushPb),
 	}
+	// unknown-call / unknown-push handlers bind the raw body themselves
+	srv.SetUnknownCall(func(ctx erpc.UnknownCallCtx) (interface{}, *erpc.Status) {
+		var marker string
+		if ctx.GetBodyCodec() == 'j' {
+			a := new(SecArg)
+			if _, err := ctx.Bind(a); err != nil {
+				return nil, erpc.NewStatus(4401, "cannot bind", err.Error())
+			}
+			marker = a.Marker
+			r, st := c17Handle(marker)
+			if st != nil {
+				return nil, st
+			}
+			return &SecArg{Marker: r, L: []string{"r"}}, nil
+		}
+		a := new(secure.Encrypt)
+		if _, err := ctx.Bind(a); err != nil {
+			return nil, erpc.NewStatus(4401, "cannot bind", err.Error())
+		}
+		r, st := c17Handle(a.Ciphertext)
+		if st != nil {
+			return nil, st
+		}
+		return &secure.Encrypt{Ciphertext: r}, nil
+	})
+	srv.SetUnknownPush(func(ctx erpc.UnknownPushCtx) *erpc.Status {
+		var marker string
+		if ctx.GetBodyCodec() == 'j' {
+			a := new(SecArg)
+			ctx.Bind(a)
+			marker = a.Marker
+		} else {
+			a := new(secure.Encrypt)
+			ctx.Bind(a)
+			marker = a.Ciphertext
+		}
+		c17.Lock()
+		c17.pushes++
+		c17.gotReq = marker
+		c17.Unlock()
+		return nil
+	})
 	l := w.Connect(cli, srv, protoByName(protos, c.Proto), func(p *vt.Pair) {
 		p.SetCapture(vt.AtoB, true)
 		p.SetCapture(vt.BtoA, true)
@@ -178,6 +224,24 @@ func runC17(c c17Case, protos []vt.NamedProto) []string {
 	replyEncrypted := c.Secure && c.Accept != "false" || !c.Secure && c.Accept == "true"
 	replyUnspecified := c.Secure && c.Accept == "false" // the two readings of the property differ: not asserted
 	route := routes[c.Kind+"-"+c.Codec]
+	if c.Unknown {
+		route = "/not/registered/" + c.Kind
+	}
+	var rawRes *[]byte
+	if c.RawResult && c.Kind == "call" {
+		// the reply body as it is after the plugin restored it: the encoded result
+		rawRes = new([]byte)
+		res = rawRes
+		getRes = func() string {
+			if c.ResMarker != "" && bytes.Contains(*rawRes, []byte(c.ResMarker)) {
+				return c.ResMarker
+			}
+			if c.ResMarker == "" {
+				return ""
+			}
+			return "raw:" + vt.Trunc(string(*rawRes))
+		}
+	}
 
 	if c.Kind == "push" {
 		if st := l.A.Push(route, arg, settings...); !st.OK() {
@@ -246,6 +310,9 @@ func runC17(c c17Case, protos []vt.NamedProto) []string {
 				} else if getRes() != c.ResMarker {
 					failf("caller received result marker %q, handler returned %q", getRes(), c.ResMarker)
 				}
+				if rep, _ := cmd.Reply(); cmd.StatusOK() && rep != res {
+					failf("CallCmd.Reply() returns %T, not the caller's result object %T", rep, res)
+				}
 			}
 		}
 	}
@@ -272,7 +339,7 @@ func runC17(c c17Case, protos []vt.NamedProto) []string {
 	return fails
 }
 
-const ruleC17 = "both peers run the secure plugin (key length 16/24/32, equal or different keys); one call or push per case with body codec json or protobuf, a 24-character random marker (or, one time in five, an empty one: the protobuf body then marshals to zero bytes) in the argument and another in the result, request marked secure or not, accept-secure marker absent/true/false, handler succeeding or failing; oracle: with decipherable traffic the handler sees the original argument and the caller the original result; with a different key the handler is not invoked (or the result not delivered) and the status carries the plugin's code; wire capture of both directions: a marker that must be encrypted never occurs (raw, hex, base64), a marker of an unmarked message does occur; the reply of (secure request, accept=false) is not asserted either way; non-trivial = at least one frame must be encrypted; distinct by case"
+const ruleC17 = "both peers run the secure plugin (key length 16/24/32, equal or different keys); one call or push per case with body codec json or protobuf, a 24-character random marker (or, one time in five, an empty one: the protobuf body then marshals to zero bytes) in the argument and another in the result, request marked secure or not, served by a typed handler or by the unknown-call / unknown-push handler (which binds the raw body itself), result received typed or as raw bytes, accept-secure marker absent/true/false, handler succeeding or failing; oracle: with decipherable traffic the handler sees the original argument and the caller the original result; with a different key the handler is not invoked (or the result not delivered) and the status carries the plugin's code; wire capture of both directions: a marker that must be encrypted never occurs (raw, hex, base64), a marker of an unmarked message does occur; the reply of (secure request, accept=false) is not asserted either way; non-trivial = at least one frame must be encrypted; distinct by case"
 
 func TestC17Secure(t *testing.T) {
 	rec := vt.NewRec(t, "C17", "secure", ruleC17)
